@@ -500,7 +500,7 @@ func (f *Frame) indexAddr(in *ssa.IndexAddr) {
 	switch u := in.X.Type().Underlying().(type) {
 	case *types.Slice:
 		arr = app("s_arr", x.S)
-		idx = g.iadd(app("s_off", x.S), i)
+		idx = app("sl.idx", x.S, i)
 		length = app("s_len", x.S)
 		et = u.Elem()
 	case *types.Pointer:
